@@ -332,6 +332,8 @@ linux_directmap(struct os_init_data *ctl)
 	addrxlat_status status;
 
 	status = linux_directmap_by_pgt(&layout[0], ctl->sys, ctl->ctx);
+	if (status != ADDRXLAT_OK)
+		clear_error(ctl->ctx);
 	if (status != ADDRXLAT_OK && opt_isset(ctl->popt, version_code))
 		status = linux_directmap_by_ver(&layout[0],
 						ctl->popt.version_code);
